@@ -16,6 +16,7 @@ func VerifC06Groups() {
 	groups := []string{"g", "h"}
 	filters := []string{"a/b", "a/+", "a/#"}
 	n := 1 + vLen(vParam("N", 3)-1)
+	firstFilter := ""
 	member := map[string]map[string]bool{"g": {}, "h": {}} // group -> client -> has a matching member subscription
 	gfilters := map[string]map[int]bool{"g": {}, "h": {}}  // group -> distinct inner filters used by its members
 	for i := 0; i < n; i++ {
@@ -25,7 +26,14 @@ func VerifC06Groups() {
 		s.Topics.Subscribe(ids[ci], sub)
 		cls[ci].State.Subscriptions.Add(f, sub)
 		member[groups[gi]][ids[ci]] = true
+		if i == 0 {
+			firstFilter = f
+		}
 		gfilters[groups[gi]][fi] = true
+	}
+	if vBool() {
+		// a client that is NOT a member unsubscribes from one of the group filters: must change nothing
+		s.Topics.Unsubscribe(firstFilter, "stranger")
 	}
 	plain := vBool() // c1 additionally holds a non-shared subscription
 	if plain {
